@@ -11,7 +11,7 @@ ID = "C15"
 RULE = ("configuration space: simfile kind {SM,SSC} x SSC version {absent, empty, 0.69, 0.7, 0.70, 0.83, 1.0} x chart {none, SM, SSC} x each of the eleven "
         "chart timing keys {absent, empty, non-empty} x OFFSET/DISPLAYBPM {absent, empty, value} on either side x ignore_specified; quick: every "
         "single-key and pairwise state of the eleven keys for every version/kind + random; thorough: a much larger random sample of the 3^11 space; "
-        "compares timing source, all TimingData fields and displaybpm; non-trivial = SSC simfile with an SSC chart")
+        "a third of the random cases written out as text and loaded instead of built property by property; compares timing source, all TimingData fields and displaybpm; non-trivial = SSC simfile with an SSC chart")
 assumptions = ["SSC version strings are plain decimals of <= 15 significant digits, for which float(v) >= 0.7 iff v >= 7/10"]
 extra_trusted = []
 
